@@ -500,7 +500,9 @@ func (g *Gen) GenOp(mode string) *Op {
 	g.MaxD = 2 + g.R.Pick(4)
 	g.NoResol = g.R.Chance(1, 4)
 	if g.Safe {
-		g.ResolverOK = func(ctx string) bool { return !strings.ContainsAny(ctx, "an") }
+		// known findings: a field resolver below a union / interface value (a), or below a plain field of
+		// another field resolver's result (p)
+		g.ResolverOK = func(ctx string) bool { return !strings.ContainsAny(ctx, "ap") }
 	} else {
 		g.ResolverOK = nil
 	}
@@ -554,14 +556,9 @@ func (g *Gen) genEntityOp(op *Op) {
 	if len(chosen) > 2 {
 		chosen = chosen[:2]
 	}
-	// safe profile: a batch over two entity types only with plain fields (follow-up calls on a
-	// mixed batch are a known finding)
-	plainOnly := g.Safe && len(chosen) > 1
-	savedNoResol := g.NoResol
-	if plainOnly {
-		g.NoResol = true
-	}
-	defer func() { g.NoResol = savedNoResol }()
+	// (follow-up calls -- @requires fields, field resolvers -- on a batch over two entity types were a
+	// finding, repaired: they are generated in every profile)
+	plainOnly := false
 	g.uid++
 	root := &Node{Kind: "f", UID: g.uid, Name: "_entities", Args: []Arg{{Name: "representations", Var: "representations"}}}
 	op.VarDefs = append(op.VarDefs, VarDef{Name: "representations", Type: "[_Any!]!"})
